@@ -344,14 +344,19 @@ def params_settle_it(ctx, b, x, y, strict):
     if not C10.module_private(b) or b["kind"] == "Closure":
         return False
     lv = H.leaves(x) | H.leaves(y)
+    lv |= set(H.leaves_all(x, "k")) | set(H.leaves_all(y, "k"))
     pidx = set()
+    gens = {}
     for l in lv:
+        l0 = l
         l = U.strip(l)
         if l[0] == "param" and isinstance(l[1], int):
             pidx.add(l[1])
+        elif l[0] == "k" and len(l) > 1 and l[1] in (b.get("generics") or []):
+            gens[l0] = (b["generics"].index(l[1]), l)  # a const generic parameter: its value is in the call's generic arguments
         else:
             return False
-    if not pidx:
+    if not pidx and not gens:
         return False
     sites = 0
     for k2, cb in facts.bodies.items():
@@ -369,6 +374,12 @@ def params_settle_it(ctx, b, x, y, strict):
                     return False
                 env[("param", i)] = o[1]
                 env[A.W(("param", i), 64)] = o[1]
+            for l0, (gi, l) in gens.items():
+                ga = t["f"].get("gargs") or []
+                if gi >= len(ga) or not str(ga[gi]).lstrip("-").isdigit():
+                    return False
+                for key in (l0, l, A.W(l, 64)):
+                    env[key] = int(ga[gi])
             vx, vy = U.eval_term(x, env, A.Path()), U.eval_term(y, env, A.Path())
             if vx is None or vy is None or not (vx < vy if strict else vx <= vy):
                 return False
@@ -383,6 +394,7 @@ def step_cone(ctx):
     for k, b in facts.bodies.items():
         if not b["glue"] and k.startswith("helpers::syscalls::") and b["kind"] == "Closure":
             roots.append(k)
+    roots += [k for k in C13.native_hook_bodies(facts) if k not in roots]
     return C18.cone_of(facts, roots)
 
 
@@ -663,11 +675,8 @@ def decode(ctx):
 def hooks(ctx):
     ck, facts = ctx.check, ctx.facts
     n = 0
-    for k, b in sorted(facts.bodies.items()):
-        if b["glue"] or b["kind"] != "Closure" or not k.startswith("helpers::syscalls::") or k.count("{closure#") != 1:
-            continue
-        if b["argc"] != 3:
-            continue
+    for k in C13.native_hook_bodies(facts):
+        b = facts.bodies[k]
         n += 1
         AXEm = lambda nme: facts.method(AXE, nme)["path"]
         alloc, resize = AXEm("mem_init_zero_anywhere"), AXEm("mem_resize_section")
@@ -682,7 +691,7 @@ def hooks(ctx):
             return None
         outs, I, body = C13.run_hook_closure(ctx, k, extra)
         owner = facts.bodies[k.split("::{closure")[0]]["name"]
-        inst = "hook=%s#%s" % (owner, k.rsplit("#", 1)[1].rstrip("}"))
+        inst = "hook=%s#%s" % (owner, k.rsplit("#", 1)[1].rstrip("}") if "#" in k else "fn")
         rep = {}
         for o in outs:
             if o.kind == "panic" and o.cls == "X":
